@@ -49,6 +49,10 @@ PROPS = {
                 claim='PublicInput::get_hash is proved to return poseidon_many of exactly the sequence listed in the statement, in order: [nvf (stone6)] ++ [log_n_steps, rc_min, rc_max, layout] ++ dynamic params ++ flattened segments ++ [padding addr, padding value, n_pages, main page length, pedersen chain of the main page incl. 2*len] ++ flattened (start,size,hash) headers; prod is not bound.',
                 technique='functional postcondition + loop invariant (pedersen chain) on PublicInput::get_hash',
                 note='The three iterator statements enter through hoisting rules with assumed std semantics; the 340-field dynamic-params flattening is an uninterpreted sequence in this unit. Injectivity = hash injectivity (idealised). Not decided: reproduction of the prover\'s first challenges.'),
+    'C14': dict(quick=['core'], thorough=['core'],
+                claim='For the recursive layout validate_public_input is proved to accept exactly the code-level predicate pi_checked, every input satisfying the memory-layout oracle pi_ok (step count = trace length/16, 6 segments, layout code, 0<=rc_min<rc_max<=2^16-1, builtin usages whole instances within floor(trace/row_ratio): pedersen 3 cells/2048 rows, range-check 1/128, bitwise 5/128) is accepted, and acceptance implies pi_ok whenever the trace holds at least one instance (log_n_steps >= 7). The unconditional direction and the address-based reading of the returned hashes FAIL on the current tree: recorded as known findings with concrete witnesses (witness/kf_tests.rs).',
+                technique='exact (<=>) and per-conjunct postconditions on LayoutTrait::validate_public_input / verify_public_input of the layout, field-division lemmas',
+                note='Other layouts: see evidence (thorough tier). The iterator chains of verify_public_input enter through hoisting rules (A-iter).'),
     'C15': dict(quick=['core'], thorough=['core'],
                 claim='Page::get_product, get_continuous_pages_product, get_public_memory_product(_ratio) are proved equal to their defining products/quotient; get_diluted_product is proved equal to the doubling recurrence (p,q,x,diff_x) after n_bits-1 steps and to terminate.',
                 technique='loop invariants on Page::get_product, get_continuous_pages_product, get_diluted_product; functional postconditions on the memory product functions',
